@@ -26,6 +26,7 @@ func checkC04(c *Ctx) {
 	c.checkDeletionLog()
 	c.checkGetOptsAgreement()
 	c.checkClipExact()
+	c.checkNormalizeHalfOpen()
 }
 
 func (c *Ctx) checkHistoryReads() {
